@@ -38,7 +38,7 @@ def gen_label_set(rng):
     if r < 0.45:
         return None
     if r < 0.85:
-        n = rng.choice([2, 3, 3])
+        n = rng.choice([2, 3, 3, 1])         # one labelled channel: a single-element illumination axis
         labs = rng.sample(RGB, n) if rng.random() < 0.3 else RGB[:n]
         return labs
     return list(range(rng.choice([2, 3, 4])))
